@@ -52,8 +52,8 @@ def group_of(path):
     return parts[2].split("[")[0] if len(parts) > 2 else "commonRoad"
 
 
-def _mk(name, regime):
-    @obligation("C03", f"valid.{name}.{regime}", functions=F, max_paths={"quick": 3000, "thorough": 20000},
+def _mk(name, regime, tier="quick"):
+    @obligation("C03", f"valid.{name}.{regime}", tier=tier, functions=F, max_paths={"quick": 3000, "thorough": 20000},
                 bounds=f"skeleton '{name}', all numeric / boolean leaves symbolic ({regime} magnitudes), decimal precision in [1, 4, 12]")
     def ob(V):
         warnings.filterwarnings("ignore")
@@ -90,6 +90,11 @@ for _n in xmlrt.SKELETONS:
 for _n in ("lanelets", "static.rectangle", "static.circle", "static.polygon", "dynamic.trajectory.KS", "planning.rectangle",
            "signs-lights", "header-location", "dynamic.setbased-phantom-environment"):
     _mk(_n, "tiny")
+_QUICK_TINY = ("lanelets", "static.rectangle", "static.circle", "static.polygon", "dynamic.trajectory.KS", "planning.rectangle",
+               "signs-lights", "header-location", "dynamic.setbased-phantom-environment")
+for _n in xmlrt.SKELETONS:
+    if _n not in NOT_EXPRESSIBLE and _n not in _QUICK_TINY:
+        _mk(_n, "tiny", "thorough")
 
 _W = "commonroad.common.writer.file_writer_xml:"
 MUTANTS = [
